@@ -5,11 +5,13 @@
 (* An error value is a record                                              *)
 (*   [uid, kind, tid, msg, text, cause]                                    *)
 (* kind  : "plain" | "foreign" (any other type exposing TypeId() and       *)
-(*         Error()) | "application" | "transport" | "protocol"             *)
+(*         Error()) | "application" | "transport" | "protocol" |           *)
+(*         "fmtwrap" (a standard-library wrapper such as                   *)
+(*         fmt.Errorf("ctx: %w", cause): no type id, own text, Unwrap)     *)
 (* tid   : type id (0 for plain)       msg : the stored message            *)
 (* text  : what Error() returns for plain / foreign errors (for the three  *)
 (*         exception kinds it is derived: ErrorText)                       *)
-(* cause : the wrapped error of a protocol exception, or NoErr             *)
+(* cause : the wrapped error of a protocol exception / fmtwrap, or NoErr   *)
 (* uid   : identity (Go pointer equality); 0 = a fresh value               *)
 (***************************************************************************)
 EXTENDS Integers, Sequences, TLC
@@ -45,7 +47,7 @@ Wrap(e) == IF e.kind = "protocol" THEN e
            ELSE [uid |-> 0, kind |-> "protocol", tid |-> 0, msg |-> ErrorText(e), text |-> "", cause |-> e]
 
 \* Unwrap()
-Unwrap(e) == IF e.kind = "protocol" THEN e.cause ELSE NoErr
+Unwrap(e) == IF e.kind \in {"protocol", "fmtwrap"} THEN e.cause ELSE NoErr
 
 \* Go identity: same allocation
 Same(a, b) == IsErr(a) /\ IsErr(b) /\ a.uid # 0 /\ a.uid = b.uid
@@ -59,6 +61,7 @@ ErrorsIs(x, t) ==
           /\ \/ (HasTypeId(t) /\ t.tid = x.tid /\ ErrorText(t) = x.msg)     \* ProtocolException.Is, first clause
              \/ (IsErr(x.cause) /\ ErrorsIs(x.cause, t))                    \* ... otherwise exactly when the cause matches
              \/ (~IsErr(x.cause) /\ ~IsErr(t))
+       \/ (x.kind = "fmtwrap" /\ IsErr(t) /\ ErrorsIs(x.cause, t))              \* the standard chain walk through Unwrap
 
 \* observable projection used for comparison with the real results
 Obs(e) == [kind |-> e.kind, tid |-> IF HasTypeId(e) THEN e.tid ELSE 0, text |-> ErrorText(e)]
